@@ -5,6 +5,7 @@ reference model written from the README, each case executed on the real bus (vir
 """
 from __future__ import annotations
 
+import asyncio
 import itertools
 import multiprocessing as mp
 import os
@@ -262,8 +263,8 @@ def check_type_case(tname, label, value, special=None, style=None, order='fresh'
 
 
 # ---------------------------------------------------------------------------------------------------------------------
-ALPHA_FULL = ['1', 'a', 'None', 'd1', 'd2', 'l1', 'l2', 'raise', 'event']
-ALPHA_SMALL = ['1', 'None', 'd1', 'd2', 'l1', 'raise']
+ALPHA_FULL = ['1', 'a', 'None', 'd1', 'd2', 'l1', 'l2', 'raise', 'event', 'cancelled']
+ALPHA_SMALL = ['1', 'None', 'd1', 'd2', 'l1', 'raise', 'cancelled']
 INCLUDES = ['default', 'all', 'isint']
 ACCESSORS = ['event_result', 'event_results_list', 'event_results_by_handler_id', 'event_results_by_handler_name', 'event_results_flat_dict', 'event_results_flat_list']
 
@@ -338,8 +339,10 @@ def check_sequence(seq):
     from ..engine import run_plain
     errs, evs, fns = {}, {}, []
     for i, sym in enumerate(seq):
-        if sym == 'raise':
-            ex = ValueError(f'boom {i}')
+        if sym in ('raise', 'cancelled'):
+            # 'cancelled': the handler ends with a CancelledError nobody asked for (it awaited something that was cancelled): an ordinary recorded error,
+            # although not an Exception subclass
+            ex = ValueError(f'boom {i}') if sym == 'raise' else asyncio.CancelledError(f'own {i}')
             errs[i] = ex
 
             def f(e, ex=ex):
@@ -398,12 +401,12 @@ def check_sequence(seq):
         return 1, 1, [V('recorded_results_do_not_match_handlers', f'seq {seq}: {recs}', **base_tags)]
     for i, (sym, r) in enumerate(zip(seq, recs)):
         hid, hn, status, val, err = r
-        okrec = (sym == 'raise' and status == 'error' and err is errs[i] and val is None) or \
+        okrec = (sym in ('raise', 'cancelled') and status == 'error' and err is errs[i] and val is None) or \
                 (sym == 'event' and status == 'completed' and val is evs[i]) or \
-                (sym not in ('raise', 'event') and status == 'completed' and val == _mk_value(sym, None, None, i) and err is None)
+                (sym not in ('raise', 'cancelled', 'event') and status == 'completed' and val == _mk_value(sym, None, None, i) and err is None)
         if not okrec or not hn.endswith(f'h{i}'):
             out.append(V('recorded_results_do_not_match_handlers', f'seq {seq} handler {i}: {r}', **base_tags))
-    mixed = len({('raise' if s == 'raise' else 'none' if s == 'None' else 'val') for s in seq}) > 1
+    mixed = len({('raise' if s in ('raise', 'cancelled') else 'none' if s == 'None' else 'val') for s in seq}) > 1
     for key, got in box['res'].items():
         acc, inc, ria, rin, ric = key
         n_cases += 1
